@@ -55,6 +55,15 @@ CLAIMED["C14"] = dict(engine="yast+yir+e3",
          "disjoint from those update<B> writes; rebind/replace/remove re-key every facet, inherit nothing keyed by the old policy and yield distinct "
          "static objects (catalogs, dispatch data, hash parameters, v-table pointers, handlers).",
     design_ref="DESIGN.md section 4, C14")
+CLAIMED["C11"] = dict(engine="e3+yast+yir",
+    technique="type-checker witnesses (cast result types, static/dynamic choice, must-compile / must-fail programs); AST cast-kind rule; IR copy/move-constructor scan",
+    text="Decides the property as a statement about the family of instantiations: for every parameter kind x inheritance shape (same class, single "
+         "base, second base at non-zero offset, virtual base, two levels) x policy the argument cast has exactly the definition's parameter type, "
+         "dynamic_cast is selected exactly when a virtual base is on the path, the thunk has the method's signature, programs with move-only / "
+         "rvalue / const-pointee / const virtual_ptr& parameters compile and the shared_ptr value/reference mixes are rejected; conversions between "
+         "class pointers on the path are derived<->base or dynamic casts (never bit casts); no copy constructor of a by-value/rvalue argument is "
+         "called in operator(), thunk::fn or the cast helpers and moves are bounded per hop. Run-time addresses and counts are not observed.",
+    design_ref="DESIGN.md section 4, C11")
 NA = {
 }
 DEFAULT_NA = "check not built yet (see DESIGN.md section 4 for the planned clause)"
